@@ -434,6 +434,21 @@ func (w FederatingWrappedCallbacks) follow(c context.Context, a vocab.ActivitySt
 					ft, err = streams.ToType(c, fm)
 				}
 			}
+			// The copy has to be the Follow: written out again, it is the
+			// same document, '@context' included (a vocabulary the Follow
+			// uses under an alias may not be recognized in the copy).
+			if err == nil {
+				var b2 []byte
+				var fm2 map[string]interface{}
+				if fm2, err = streams.Serialize(ft); err == nil {
+					if b2, err = json.Marshal(fm2); err == nil {
+						fm2 = nil
+						if err = json.Unmarshal(b2, &fm2); err == nil && !sameDocument(fm, fm2) {
+							err = fmt.Errorf("the copy of the follow differs from it")
+						}
+					}
+				}
+			}
 		}
 		op := streams.NewActivityStreamsObjectProperty()
 		response.SetActivityStreamsObject(op)
